@@ -132,4 +132,20 @@ class AtomicList(Unit):
             return "final chains differ: implementation %s, model %s" % (final, mc.group(1))
         return None
 
+class Keyed:
+    """Check wrapper: one specific key for every manifestation of the known defect (try_lock_checking
+    loads / CASes the link word of a node that was handed back meanwhile), whatever program and
+    schedule exhibited it:  atomic_list/touched-after-hand-back/<rest|self>:<L|C|S>."""
+    def __init__(self, chk):
+        self.__dict__["_c"] = chk
+    def __getattr__(self, n):
+        return getattr(self._c, n)
+    def __setattr__(self, n, v):
+        setattr(self._c, n, v)
+    def violation(self, key, replay_path, no_input=False, text=""):
+        if key.endswith("/monitor") and "touched after it was handed back" in text:
+            m = re.search(r"(rest|self) ([CLS])\.", text)
+            key = "atomic_list/touched-after-hand-back" + ("/%s:%s" % (m.group(1), m.group(2)) if m else "")
+        return self._c.violation(key, replay_path, no_input, text)
+
 UNITS = [AtomicList]
